@@ -4,7 +4,8 @@
     and the same output.  This is what the record format's "the previous operation again n
     times" (operation kind 9 of the harness, where only the first and the last of the repeated
     applications are observed and the model applies the operation twice) relies on. *)
-From Verif Require Import Base.Prelude Model.ShortMsg Model.PerChannel Model.CC14 Model.Nrpn.
+From Verif Require Import Base.Prelude Model.ShortMsg Model.PerChannel Model.CC14 Model.Nrpn
+  Model.Polling.
 
 (** * one channel *)
 Lemma cc14_feed1_fixed st m st1 o1 st2 o2 :
@@ -135,3 +136,40 @@ Proof. apply feed_multi_repeats. exact cc14_feed1_fixed. Qed.
 Theorem pn_feed_repeats s b s1 o1 s2 o2 :
   pn_feed s b = Ok (s1, o1) -> pn_feed s1 b = Ok (s2, o2) -> pn_feed s2 b = Ok (s2, o2).
 Proof. apply feed_multi_repeats. exact pn_feed1_fixed. Qed.
+
+(** * resetting again changes nothing: any number of resets in a row is one reset
+    (operation kind 2 of the harness carries a repeat count; the model resets once) *)
+Lemma reset_multi_idempotent (St : Type) (reset1 : St -> St) :
+  (forall st, reset1 (reset1 st) = reset1 st) ->
+  forall s, reset_multi St reset1 (reset_multi St reset1 s) = reset_multi St reset1 s.
+Proof.
+  intros H s. unfold reset_multi. rewrite map_map. apply map_ext. exact H.
+Qed.
+
+Theorem cc14_reset_idempotent s : cc14_reset (cc14_reset s) = cc14_reset s.
+Proof. apply reset_multi_idempotent. reflexivity. Qed.
+
+Theorem pn_reset_idempotent s : pn_reset (pn_reset s) = pn_reset s.
+Proof. apply reset_multi_idempotent. reflexivity. Qed.
+
+Fixpoint iter_reset {A} (f : A -> A) (n : nat) (s : A) : A :=
+  match n with O => s | S k => f (iter_reset f k s) end.
+
+Lemma iter_idempotent {A} (f : A -> A) :
+  (forall s, f (f s) = f s) -> forall n s, iter_reset f (S n) s = f s.
+Proof.
+  intros H n. induction n as [|k IH]; intros s; [reflexivity|].
+  cbn [iter_reset] in *. rewrite IH. apply H.
+Qed.
+
+Theorem cc14_resets_are_one_reset n s : iter_reset cc14_reset (S n) s = cc14_reset s.
+Proof. apply iter_idempotent. exact cc14_reset_idempotent. Qed.
+
+Theorem pn_resets_are_one_reset n s : iter_reset pn_reset (S n) s = pn_reset s.
+Proof. apply iter_idempotent. exact pn_reset_idempotent. Qed.
+
+Theorem poll_reset_idempotent s : poll_reset (poll_reset s) = poll_reset s.
+Proof. apply reset_multi_idempotent. intros st. reflexivity. Qed.
+
+Theorem poll_resets_are_one_reset n s : iter_reset poll_reset (S n) s = poll_reset s.
+Proof. apply iter_idempotent. exact poll_reset_idempotent. Qed.
